@@ -211,6 +211,10 @@ impl Dispatch {
     }
 }
 impl Group for Dispatch {
+    // a real server / real sockets with read timeouts: a failure counts if it shows again when the same case is re-run
+    fn timing_sensitive(&self) -> bool {
+        true
+    }
     fn name(&self) -> &'static str {
         "c19.dispatch"
     }
@@ -356,6 +360,10 @@ impl Group for Dispatch {
 /// commands arriving while an earlier one is still in flight (`wait` pending, or a client that stalls)
 pub struct InFlight;
 impl Group for InFlight {
+    // a real server / real sockets with read timeouts: a failure counts if it shows again when the same case is re-run
+    fn timing_sensitive(&self) -> bool {
+        true
+    }
     fn name(&self) -> &'static str {
         "c19.inflight"
     }
@@ -540,6 +548,10 @@ impl Cli {
     }
 }
 impl Group for Cli {
+    // a real server / real sockets with read timeouts: a failure counts if it shows again when the same case is re-run
+    fn timing_sensitive(&self) -> bool {
+        true
+    }
     fn name(&self) -> &'static str {
         "c19.cli"
     }
